@@ -642,6 +642,20 @@ inline void c03_extras(Rng& r, model::MLib& m) {
         model::MCell& c = m.cells[ci];
         for (auto& ref : c.refs) {
             if (ref.rep.type != model::REP_REGULAR) continue;
+            if ((ref.rep.v1.x == 0 || ref.rep.v1.y == 0) && std::max(llabs(ref.rep.v1.x), llabs(ref.rep.v1.y)) >= 5000000000LL) {
+                // an array wider than 2^31 grid steps (generator): keep the column vector, pick the rotation it
+                // follows and a short row vector along the rotated y axis
+                int q = ref.rep.v1.y == 0 ? (ref.rep.v1.x > 0 ? 0 : 2) : (ref.rep.v1.y > 0 ? 1 : 3);
+                int64_t b = (canon::rgrid(llabs(ref.rep.v2.x) + llabs(ref.rep.v2.y)) + 1) * 10;
+                ref.rot_deg = 90.0 * q;
+                switch (q) {
+                    case 0: ref.rep.v2 = Pt{0, b}; break;
+                    case 1: ref.rep.v2 = Pt{-b, 0}; break;
+                    case 2: ref.rep.v2 = Pt{0, -b}; break;
+                    default: ref.rep.v2 = Pt{b, 0};
+                }
+                continue;
+            }
             if (r.chance(0.4)) {
                 // lattice exactly aligned with a rotation whose direction is an integer vector
                 const int* t = tri[r.below(6)];
